@@ -532,6 +532,26 @@ impl PagedCachedFile {
         Ok(arc)
     }
 
+    // Verification hook: the current contents of a page as a reader would see them (write buffer,
+    // then read cache, then the file), without inserting into or reordering any cache.
+    #[cfg(redb_verif)]
+    pub(super) fn verif_peek(&self, offset: u64, len: usize) -> Result<Vec<u8>> {
+        {
+            let lock = self.write_buffer_stripe(offset).lock().unwrap();
+            if let Some(Some(cached)) = lock.cache.verif_peek(offset) {
+                return Ok(cached.to_vec());
+            }
+        }
+        let cache_slot: usize = (offset % Self::lock_stripes()).try_into().unwrap();
+        {
+            let read_lock = self.read_cache[cache_slot].read().unwrap();
+            if let Some(cached) = read_lock.verif_peek(offset) {
+                return Ok(cached.to_vec());
+            }
+        }
+        self.read_direct(offset, len)
+    }
+
     // Read with caching. Caller must not read overlapping ranges without first calling invalidate_cache().
     // Doing so will not cause UB, but is a logic error.
     pub(super) fn read(&self, offset: u64, len: usize, hint: PageHint) -> Result<Arc<[u8]>> {
